@@ -13,6 +13,7 @@ EXPLANATION = ("C02: exhaustive check of the aio provider protocol (result of nn
                "for the task) over all providers of the build. Necessary conditions for exactly-once completion."
                " Also: the expiry scan accounts for every entry it walks past (E1), and whoever takes the head off a head-gated request queue starts the next transfer (S3).")
 EXPLANATION += ' Round 3: the absolute-expiry flag is updated together with the timeout / deadline it qualifies (T1).'
+EXPLANATION += " Round 5: the byte-stream connections and the platform's queues park nothing after their close has drained them (P1 = C10.R11 for src/platform and src/supplemental)."
 ASSUMPTIONS = ["interleaving-level behaviour of the expire thread and of user code is not decided"]
 
 
@@ -1191,6 +1192,16 @@ def rule_a8(ctx):
         raise AnalysisBroken("only %d completions after an unlock/re-lock window found" % n)
 
 
+def rule_p1(ctx):
+    """the byte-stream connections and the platform's dial / accept / resolve queues (stream I/O is one of the operation
+    kinds of C02): C10.R11's rule instantiated for src/platform and src/supplemental"""
+    from . import c10
+    c10.rule_no_park_after_close(ctx, rid="C02.P1", dirs=("/platform/posix/", "/supplemental/"), floor=P1_FLOOR)
+
+
+P1_FLOOR = 12
+
+
 def run(ctx):   # noqa: F811
     ctx.guard(rule_a1)
     ctx.guard(rule_a2)
@@ -1205,3 +1216,4 @@ def run(ctx):   # noqa: F811
     ctx.guard(rule_l2)
     ctx.guard(rule_t2)
     ctx.guard(rule_a8)
+    ctx.guard(rule_p1)
